@@ -1,0 +1,122 @@
+//go:build verif
+
+package dht
+
+// Observation hooks for the external verification harness. Compiled only with -tags verif; no
+// existing code is changed.
+
+import (
+	"context"
+	"net"
+	"sort"
+	"time"
+
+	"github.com/anacrolix/dht/v2/int160"
+	"github.com/anacrolix/dht/v2/krpc"
+)
+
+type VerifEntry struct {
+	Bucket                     int
+	ID                         [20]byte
+	Addr                       string
+	IP                         net.IP
+	Port                       int
+	LastGotQuery               time.Time
+	LastGotResponse            time.Time
+	FailedLastQuestionablePing bool
+	// The package's own verdicts, for cross-checking against the reference classification.
+	Good, Bad, Questionable bool
+}
+
+type VerifTableSnapshot struct {
+	Root    [20]byte
+	K       int
+	Entries []VerifEntry
+	// Per-address index: address string -> IDs.
+	AddrIndex map[string][][20]byte
+}
+
+// VerifTable returns a copy of the routing table contents.
+func (s *Server) VerifTable() (ret VerifTableSnapshot) {
+	s.mu.RLock()
+	defer s.mu.RUnlock()
+	ret.Root = s.table.rootID.AsByteArray()
+	ret.K = s.table.k
+	for i := range s.table.buckets {
+		for n := range s.table.buckets[i].nodes {
+			ret.Entries = append(ret.Entries, VerifEntry{
+				Bucket:                     i,
+				ID:                         n.Id.AsByteArray(),
+				Addr:                       n.Addr.String(),
+				IP:                         append(net.IP(nil), n.Addr.IP()...),
+				Port:                       n.Addr.Port(),
+				LastGotQuery:               n.lastGotQuery,
+				LastGotResponse:            n.lastGotResponse,
+				FailedLastQuestionablePing: n.failedLastQuestionablePing,
+				Good:                       s.IsGood(n),
+				Bad:                        s.nodeIsBad(n),
+				Questionable:               s.IsQuestionable(n),
+			})
+		}
+	}
+	sort.Slice(ret.Entries, func(i, j int) bool {
+		a, b := ret.Entries[i], ret.Entries[j]
+		if a.Bucket != b.Bucket {
+			return a.Bucket < b.Bucket
+		}
+		if a.ID != b.ID {
+			return string(a.ID[:]) < string(b.ID[:])
+		}
+		return a.Addr < b.Addr
+	})
+	ret.AddrIndex = make(map[string][][20]byte, len(s.table.addrs))
+	for a, ids := range s.table.addrs {
+		var l [][20]byte
+		for id := range ids {
+			l = append(l, id.AsByteArray())
+		}
+		sort.Slice(l, func(i, j int) bool { return string(l[i][:]) < string(l[j][:]) })
+		ret.AddrIndex[a] = l
+	}
+	return
+}
+
+// VerifAge moves every entry's non-zero timestamps d into the past, which is observationally the
+// same as d elapsing.
+func (s *Server) VerifAge(d time.Duration) {
+	s.mu.Lock()
+	defer s.mu.Unlock()
+	s.table.forNodes(func(n *node) bool {
+		if !n.lastGotQuery.IsZero() {
+			n.lastGotQuery = n.lastGotQuery.Add(-d)
+		}
+		if !n.lastGotResponse.IsZero() {
+			n.lastGotResponse = n.lastGotResponse.Add(-d)
+		}
+		return true
+	})
+}
+
+// VerifSetTokenClock replaces the token server's time source.
+func (s *Server) VerifSetTokenClock(f func() time.Time) {
+	s.mu.Lock()
+	defer s.mu.Unlock()
+	s.tokenServer.timeNow = f
+}
+
+// VerifQuestionablePing runs the ping TableMaintainer uses for questionable nodes.
+func (s *Server) VerifQuestionablePing(ctx context.Context, addr *net.UDPAddr, id [20]byte) QueryResult {
+	return s.questionableNodePing(ctx, NewAddr(addr), krpc.ID(id))
+}
+
+// VerifBucketIndex is the routing table's bucket index of id under root (root != id).
+func VerifBucketIndex(root, id [20]byte) int {
+	tbl := table{rootID: int160.FromByteArray(root)}
+	return tbl.bucketIndex(int160.FromByteArray(id))
+}
+
+// VerifRandomIDInBucket draws the random refresh target for a bucket.
+func VerifRandomIDInBucket(root [20]byte, bucket int) [20]byte {
+	id := randomIdInBucket(int160.FromByteArray(root), bucket)
+	return id.AsByteArray()
+}
